@@ -16,6 +16,7 @@ def run(ctx):
     ctx.assumptions = ["TLC 1.8 + CommunityModules", "the reflective AST projection", "password statements are re-parsed after "
                        "writing a placeholder literal where [REDACTED] was printed"]
     parts = g.gen_statements(ctx, "selectq" if ctx.quick else "select")
+    parts.append(("deep", g.gen_deep(ctx, 6000 if ctx.quick else 60000, 4 if ctx.quick else 5)))
     for name, cf in parts:
         of = ctx.path("obs_%s.ndjson" % name)
         ctx.drive("c01", cf, of)
